@@ -378,3 +378,194 @@ Section Sim.
   Qed.
 
 End Sim.
+
+(** * Runs that do not read the cache (scan mode, write mode) *)
+
+Section TwoRuns.
+  Variable B : Type.
+  Variable enc : stored -> B.
+  Variable dec : B -> option stored.
+
+  Notation load_rep := (load_rep B enc dec).
+  Notation load_reps := (load_reps B enc dec).
+  Notation load_sets := (load_sets B enc dec).
+  Notation load_asset := (load_asset B enc dec).
+  Notation load_all := (load_all B enc dec).
+  Notation discover := (discover B enc dec).
+
+  Variables md1 md2 : lmode.
+  Hypothesis nc1 : use_cache md1 = false.
+  Hypothesis nc2 : use_cache md2 = false.
+  (** a property of every representation occurrence of the MPD list, and a relation between the
+      two cache directories that related writes preserve *)
+  Variable Occ : string -> mpd_rep -> Prop.
+  Variable CR : cache B -> cache B -> Prop.
+
+  Definition wstep (md : lmode) (c : cache B) (apath : string) (m : mpd_rep) : cache B :=
+    match scan_rep m with
+    | Ok r => if do_write md then cache_set B c apath (m_id m) (enc (to_stored r)) else c
+    | _ => c
+    end.
+
+  Hypothesis CR_step : forall ci di apath m, Occ apath m -> CR ci di -> CR (wstep md1 ci apath m) (wstep md2 di apath m).
+
+  Definition two_rel (x y : res (lstate B)) : Prop :=
+    match x, y with
+    | Ok (a1, c1, e1), Ok (a2, c2, e2) => a1 = a2 /\ e1 = e2 /\ CR c1 c2
+    | Panic s, Panic s' => s = s'
+    | Err _, Err _ => True
+    | _, _ => False
+    end.
+
+  Lemma load_rep_nocache md c m : use_cache md = false ->
+    load_rep md c m = (scan_rep m, match scan_rep m with Ok r => if do_write md then Some (enc (to_stored r)) else None | _ => None end).
+  Proof. intros H. unfold Cache.load_rep. rewrite H. reflexivity. Qed.
+
+  Lemma load_reps_two apath actype : forall reps a ci di,
+    (forall b m, In (b, m) reps -> Occ apath m) -> CR ci di ->
+    two_rel (load_reps md1 apath actype reps a ci) (load_reps md2 apath actype reps a di).
+  Proof.
+    induction reps as [|[b m] reps IH]; intros a ci di Ho Hc; cbn [Cache.load_reps].
+    - cbn. auto.
+    - destruct b; [cbn; auto|].
+      assert (Ho' : forall b m, In (b, m) reps -> Occ apath m) by (intros; eapply Ho; right; eauto).
+      destruct (lookup (m_id m) (a_reps a)); [apply IH; assumption|].
+      rewrite !load_rep_nocache by assumption.
+      pose proof (CR_step ci di apath m (Ho false m (or_introl eq_refl)) Hc) as Hs. unfold wstep in Hs.
+      destruct (scan_rep m) as [r| |]; cbn; auto.
+      set (c1 := match (if do_write md1 then Some (enc (to_stored r)) else None) with Some b => cache_set B ci apath (m_id m) b | None => ci end).
+      set (c2 := match (if do_write md2 then Some (enc (to_stored r)) else None) with Some b => cache_set B di apath (m_id m) b | None => di end).
+      assert (Hc12 : CR c1 c2) by (subst c1 c2; destruct (do_write md1), (do_write md2); exact Hs).
+      destruct (lenZ (r_segs r) =? 0); [cbn; auto|].
+      destruct (String.eqb actype "audio" && match r_const r with Some d => d =? 0 | None => true end); [cbn; auto|].
+      apply IH; assumption.
+  Qed.
+
+  Definition sets_occ (apath : string) (sets : list aset) : Prop :=
+    forall s, In s sets -> forall b m, In (b, m) (as_reps s) -> Occ apath m.
+
+  Lemma load_sets_two apath : forall sets a ci di,
+    sets_occ apath sets -> CR ci di ->
+    two_rel (load_sets md1 apath sets a ci) (load_sets md2 apath sets a di).
+  Proof.
+    induction sets as [|s sets IH]; intros a ci di Ho Hc; cbn [Cache.load_sets].
+    - cbn. auto.
+    - destruct (negb (as_has_template s)); [cbn; auto|].
+      pose proof (load_reps_two apath (as_ctype s) (as_reps s) a ci di (Ho s (or_introl eq_refl)) Hc) as Hr.
+      destruct (load_reps md1 apath (as_ctype s) (as_reps s) a ci) as [[[a1 c1] e1]| |],
+               (load_reps md2 apath (as_ctype s) (as_reps s) a di) as [[[a2 c2] e2]| |]; cbn [two_rel bind] in *; try contradiction; auto.
+      destruct Hr as (-> & -> & Hc12). destruct e2; [cbn; auto|].
+      apply IH; [|exact Hc12]. intros s' Hin. apply Ho. now right.
+  Qed.
+
+  Definition mpd_occ (e : string * string * mpd_obs) : Prop :=
+    match e with
+    | (apath, _, MOk sets) => sets_occ apath sets
+    | _ => True
+    end.
+
+  Definition two_all_rel (x y : res (list (string * asset) * cache B)) : Prop :=
+    match x, y with
+    | Ok (l1, c1), Ok (l2, c2) => l1 = l2 /\ CR c1 c2
+    | Panic s, Panic s' => s = s'
+    | Err _, Err _ => True
+    | _, _ => False
+    end.
+
+  Lemma load_all_two : forall l assets ci di,
+    Forall mpd_occ l -> CR ci di ->
+    two_all_rel (load_all md1 l assets ci) (load_all md2 l assets di).
+  Proof.
+    induction l as [|[[apath name] o] l IH]; intros assets ci di Ho Hc; cbn [Cache.load_all].
+    - cbn. auto.
+    - inversion Ho as [|? ? Ho1 Ho2]; subst.
+      set (a := match lookup apath assets with Some a => a | None => empty_asset end).
+      assert (Hr : two_rel (load_asset md1 apath name o a ci) (load_asset md2 apath name o a di)).
+      { destruct o as [| |sets]; cbn [Cache.load_asset]; try (cbn; auto; fail). apply load_sets_two; assumption. }
+      destruct (load_asset md1 apath name o a ci) as [[[a1 c1] e1]| |],
+               (load_asset md2 apath name o a di) as [[[a2 c2] e2]| |]; cbn [two_rel bind two_all_rel] in *; try contradiction; auto.
+      destruct Hr as (-> & _ & Hc12). apply IH; assumption.
+  Qed.
+
+  Theorem discover_two l ci di :
+    Forall mpd_occ l -> CR ci di ->
+    two_all_rel (discover md1 l ci) (discover md2 l di).
+  Proof.
+    intros Ho Hc. unfold Cache.discover. pose proof (load_all_two l [] ci di Ho Hc) as Hr.
+    destruct (load_all md1 l [] ci) as [[l1 c1]| |], (load_all md2 l [] di) as [[l2 c2]| |];
+      cbn [two_all_rel bind] in *; try contradiction; auto.
+    destruct Hr as (-> & Hc12). destruct (lenZ l2 =? 0); [exact I|].
+    destruct (consolidate_all l2); cbn; auto.
+  Qed.
+
+End TwoRuns.
+
+Section WriteMode.
+  Variable B : Type.
+  Variable enc : stored -> B.
+  Variable dec : B -> option stored.
+  Notation discover := (discover B enc dec).
+
+  Lemma mpd_occ_true l : Forall (mpd_occ (fun _ _ => True)) l.
+  Proof. apply Forall_forall. intros [[a n] o] _. destruct o; cbn; auto. intros s _ b m _. exact I. Qed.
+
+  (** Write mode serves exactly what scan mode serves (same assets, same outcome). *)
+  Theorem write_eq_scan l c c0 :
+    two_all_rel B (fun _ _ => True) (discover mode_write l c) (discover mode_scan l c0).
+  Proof.
+    apply (discover_two B enc dec mode_write mode_scan eq_refl eq_refl (fun _ _ => True) (fun _ _ => True)); auto.
+    apply mpd_occ_true.
+  Qed.
+
+  (** Idempotence: a second write-mode start over the files of the first leaves every cache file
+      as it is (and serves the same). *)
+  Theorem write_idempotent l c assets c1 :
+    discover mode_write l c = Ok (assets, c1) ->
+    exists c2, discover mode_write l c1 = Ok (assets, c2) /\ forall a id, c2 a id = c1 a id.
+  Proof.
+    intros H1.
+    set (CR := fun (x y : cache B) => forall a id, x a id = y a id \/ (x a id = c a id /\ y a id = c1 a id)).
+    assert (Hstep : forall ci di apath m, True -> CR ci di -> CR (wstep B enc mode_write ci apath m) (wstep B enc mode_write di apath m)).
+    { intros ci di apath m _ Hc a id. unfold wstep. destruct (scan_rep m) as [r| |]; try apply Hc.
+      cbn [do_write mode_write]. unfold cache_set. destruct (String.eqb apath a && String.eqb (m_id m) id); [left; reflexivity|apply Hc]. }
+    pose proof (discover_two B enc dec mode_write mode_write eq_refl eq_refl (fun _ _ => True) CR Hstep l c c1 (mpd_occ_true l)) as Hr.
+    rewrite H1 in Hr. specialize (Hr (fun a id => or_intror (conj eq_refl eq_refl))).
+    destruct (discover mode_write l c1) as [[l2 c2]| |]; cbn in Hr; try contradiction.
+    destruct Hr as [<- Hc]. exists c2. split; [reflexivity|]. intros a id. destruct (Hc a id) as [E|[E1 E2]]; congruence.
+  Qed.
+
+  (** Write mode produces a good cache directory: every file it leaves is the written form of the
+      scan of the representation it belongs to, provided the MPDs of an asset describe a given
+      representation id in one way ([D]) and the directory was good before (e.g. empty). *)
+  Variable D : string -> string -> mpd_rep.
+  Definition consistent (l : mpd_list) : Prop := Forall (mpd_occ (fun apath m => m = D apath (m_id m))) l.
+  Definition good_D (c : cache B) : Prop := forall a id, good_entry B enc (D a id) (c a id).
+
+  Theorem write_makes_good l c assets c1 :
+    consistent l -> good_D c ->
+    discover mode_write l c = Ok (assets, c1) -> good_D c1.
+  Proof.
+    intros Hcons Hg H1.
+    set (CR := fun (x _ : cache B) => good_D x).
+    assert (Hstep : forall ci di apath m, m = D apath (m_id m) -> CR ci di -> CR (wstep B enc mode_write ci apath m) (wstep B enc mode_write di apath m)).
+    { intros ci di apath m Hm Hc a id. unfold wstep. destruct (scan_rep m) as [r| |] eqn:Es; try apply Hc.
+      cbn [do_write mode_write]. unfold cache_set. destruct (String.eqb apath a && String.eqb (m_id m) id) eqn:Ek; [|apply Hc].
+      apply andb_prop in Ek. destruct Ek as [Ea Ei]. apply String.eqb_eq in Ea, Ei. subst a id.
+      right. exists r. split; [rewrite <- Hm; exact Es|reflexivity]. }
+    pose proof (discover_two B enc dec mode_write mode_write eq_refl eq_refl _ CR Hstep l c c Hcons Hg) as Hr.
+    rewrite H1 in Hr. cbn in Hr. apply Hr.
+  Qed.
+
+  (** A good directory is good for every MPD list that is consistent with [D] and has usable init segments. *)
+  Lemma good_D_cache_good l c :
+    consistent l -> good_D c ->
+    Forall (mpd_occ (fun _ m => init_ts_ok m)) l ->
+    cache_good B enc c l.
+  Proof.
+    intros Hcons Hg Hts. unfold cache_good, consistent in *. rewrite Forall_forall in *. intros [[apath name] o] Hin.
+    specialize (Hcons _ Hin). specialize (Hts _ Hin). destruct o as [| |sets]; cbn in *; auto.
+    intros s Hs b m Hm. split; [|eapply Hts; eauto]. rewrite (Hcons s Hs b m Hm) at 1.
+    apply Hg.
+  Qed.
+
+End WriteMode.
